@@ -28,10 +28,17 @@ M = [
  ("c04-dotdot-ignored", ["C04"], BO, "Bound::Default(_) => self.default = true,", "Bound::Default(_) => {}"),
  ("c03-lifetime-params", ["C03"], SU, "                _ => {}\n            }\n        }\n        Self { idents }", "                GenericParam::Lifetime(t) => {\n                    idents.insert(t.lifetime.ident.clone());\n                }\n            }\n        }\n        Self { idents }"),
  ("c03-default-value-still-bounded", ["C03"], IT, "if field.hattrs.push_bounds_to(use_bounds, kind, wcb) && value.is_none() {", "if field.hattrs.push_bounds_to(use_bounds, kind, wcb) {"),
+ ("c09-change-owned-flip", ["C09"], II, "(true, false) => quote!(<#ty as ::core::clone::Clone>::clone(#expr)),\n        (false, true) => quote!(&#expr),", "(false, true) => quote!(<#ty as ::core::clone::Clone>::clone(#expr)),\n        (true, false) => quote!(&#expr),"),
+ ("c09-assign-second-form", ["C09"], II, "ts.extend(impl_assign(&ref_type(&rhs), true));", "ts.extend(impl_assign(&ref_type(&rhs), false));"),
+ ("c09-swap-operands", ["C09"], II, "<#l as #binary_trait<#r>>::#binary_func(#l_expr, #r_expr)", "<#l as #binary_trait<#r>>::#binary_func(#r_expr, #l_expr)"),
+ ("c09-ref-mut-counts-as-ref", ["C09"], II, "if tr.lifetime.is_none() && tr.mutability.is_none() {", "if tr.lifetime.is_none() {"),
+ ("c11-into-for-every-literal", ["C11"], IT, "                    lit: Lit::Str(_),\n", "                    lit: _,\n"),
+ ("c11-only-variant-rule", ["C11"], IT, "                if variants.len() == 1 {", "                if !variants.is_empty() {"),
+ ("c11-value-on-variant-accepted", ["C11"], IT, "        if let Some(value) = &a.value {\n            bail!(", "        if let (Some(value), true) = (&a.value, false) {\n            bail!("),
  # benign variants: every listed property must stay silent
  ("benign-rename-local", [], IT, "let use_bounds = e.push_bounds_to(&mut wcb);\n    let mut ctor_args = Vec::new();\n    let mut clone_from_exprs = Vec::new();", "let use_bounds = e.push_bounds_to(&mut wcb);\n    let mut ctor_args = Vec::new();\n    let mut clone_from_exprs = Vec::new();\n    let _unused_marker = 0;"),
 ]
-BENIGN_PROPS = ["C01", "C03", "C04", "C07", "C08", "C10", "C18"]
+BENIGN_PROPS = ["C01", "C03", "C04", "C07", "C08", "C09", "C10", "C11", "C18"]
 
 def sh(cmd, **kw): return subprocess.run(cmd, shell=True, capture_output=True, text=True, **kw)
 
